@@ -67,7 +67,7 @@ impl Tracker {
     pub fn new_cache(&mut self, slot: usize, cfg: &Config, cap: usize) {
         let mut t = SlotTrack::default();
         if let Ctor::WithCapacityAndHasher(n) = cfg.ctor {
-            t.max_req_cap = fresh_capacity(n);
+            t.max_req_cap = fresh_capacity(n).max(cap);
             t.window = Some((n, cap, 0));
         }
         self.slots[slot] = t;
@@ -805,8 +805,9 @@ pub fn check_step(s: &Step, tr: &mut Tracker, viols: &mut Vec<Viol>) -> Decides 
             // fresh copies: every token in the clone was produced by Clone::clone of the corresponding source token
             if same {
                 for (a, b) in src.entries.iter().zip(cl.entries.iter()) {
-                    let kc = s.events.iter().any(|e| e.kind == EV_CLONE_K && e.a == a.ktok && e.b == b.ktok);
-                    let vc = s.events.iter().any(|e| e.kind == EV_CLONE_V && e.a == a.vtok && e.b == b.vtok);
+                    // "each owns its own copies": the clone's instances were created during this call
+                    let kc = b.ktok >= s.created.0 && b.ktok < s.created.1;
+                    let vc = b.vtok >= s.created.0 && b.vtok < s.created.1;
                     if !kc || !vc || a.ktok == b.ktok || a.vtok == b.vtok || a.kaddr == b.kaddr {
                         out.push(C14, "clone-not-own-copy", format!("clone entry for key {} does not hold its own copies (key #{} from #{}, value #{} from #{})", a.id, b.ktok, a.ktok, b.vtok, a.vtok));
                         break;
@@ -871,10 +872,17 @@ pub fn check_step(s: &Step, tr: &mut Tracker, viols: &mut Vec<Viol>) -> Decides 
                         break;
                     }
                 }
-                for &tk in &inn {
-                    if outt.binary_search(&tk).is_err() && drops.binary_search(&tk).is_err() {
-                        out.push(props, "instance-lost", format!("{}: instance #{} left the cache but was neither dropped nor handed back (leak)", s.op.kind.name(), tk));
-                        break;
+                // An instance that left the cache without being handed back must be dropped — at the latest
+                // when everything is gone (end-of-run oracle `never-dropped`).  Only where a statement fixes
+                // the moment ("owning iterators drop whatever was not consumed", retain: "gone (and
+                // dropped)", dropping the cache) is a missing drop reported at the step itself.
+                let timed = matches!(s.op.kind, OpKind::IterScript { .. } | OpKind::Retain { .. } | OpKind::DropCache | OpKind::Clear);
+                if timed {
+                    for &tk in &inn {
+                        if outt.binary_search(&tk).is_err() && drops.binary_search(&tk).is_err() {
+                            out.push(props, "instance-lost", format!("{}: instance #{} left the cache but was neither dropped nor handed back (leak)", s.op.kind.name(), tk));
+                            break;
+                        }
                     }
                 }
             }
@@ -934,7 +942,7 @@ pub fn check_step(s: &Step, tr: &mut Tracker, viols: &mut Vec<Viol>) -> Decides 
             *trk = SlotTrack::default();
             {
                 if let Ctor::WithCapacityAndHasher(n) = s.cfg.ctor {
-                    trk.max_req_cap = fresh_capacity(n);
+                    trk.max_req_cap = fresh_capacity(n).max(post.cap);
                     trk.window = Some((n, post.cap, 0));
                 }
             }
@@ -944,7 +952,8 @@ pub fn check_step(s: &Step, tr: &mut Tracker, viols: &mut Vec<Viol>) -> Decides 
             OpKind::Reserve { a } | OpKind::TryReserve { a, .. } => {
                 if let Some(w) = pre.len.checked_add(*a) {
                     if w < (1usize << 36) && matches!(s.outcome, Outcome::Reserve(Ok(()))) {
-                        trk.max_req_cap = trk.max_req_cap.max(fresh_capacity(w));
+                        // whatever an explicit request produced counts as explicitly requested
+                        trk.max_req_cap = trk.max_req_cap.max(fresh_capacity(w)).max(post.cap);
                     }
                 }
             }
@@ -996,7 +1005,7 @@ pub fn check_step(s: &Step, tr: &mut Tracker, viols: &mut Vec<Viol>) -> Decides 
     if matches!(s.op.kind, OpKind::CloneTo) {
         if let (Some(src), Some(cl)) = (&s.post[t], &s.post[o]) {
             let inherit = tr.slots[t].clone();
-            tr.slots[o] = SlotTrack { peak_len: cl.len.max(inherit.peak_len), max_req_cap: inherit.max_req_cap.max(fresh_capacity(src.cap)), window: None };
+            tr.slots[o] = SlotTrack { peak_len: cl.len.max(inherit.peak_len), max_req_cap: inherit.max_req_cap.max(fresh_capacity(src.cap)).max(cl.cap), window: None };
         }
     }
 
